@@ -135,6 +135,15 @@ PATTERNS = [
     (r"allocate\(" + V + r"\(\{c_var_dimension\}\)\)", 74, [1]),
     (r"call c_f_pointer\(" + V + r"%base_addr, " + V + r"\{f_array_shape\}\)", 75, [1, 2]),
     (r"call c_f_pointer\(" + V + r", " + V + r"\{f_array_shape\}\)", 76, [1, 2]),
+    # allocatable character / std::string results through the context struct
+    (V + r"->addr\.ccharp = " + V + r";", 82, [1, 2]),
+    (V + r"->elem_len = " + V + r" == \{nullptr\} \? 0 : \{stdlib\}strlen\(" + V + r"\);", 83, [1, 2, 3]),
+    (V + r"->size = 1;", 84, [1]),
+    (V + r"->rank = 0;", 85, [1]),
+    (r"ShroudStrToArray\(" + V + r", (?:\{cxx_addr\})?" + V + r", \{idtor\}\);", 86, [1, 2]),
+    (r"std::string \* " + V + r" = new std::string;", 87, [1]),
+    (r"allocate\(character\(len=" + V + r"%elem_len\):: " + V + r"\)", 88, [1, 2]),
+    (r"call \{hnamefunc0\}\(" + V + r", " + V + r", " + V + r"%elem_len\)", 89, [1, 2, 3]),
     # char ** input
     (r"char \*\*" + V + r" = ShroudStrArrayAlloc\(" + V + r", " + V + r", " + V + r"\);", 80, [1, 2, 3, 4]),
     (r"ShroudStrArrayFree\(" + V + r", " + V + r"\);", 81, [1, 2]),
@@ -156,8 +165,8 @@ OPAQUE = [
     "<modelled> call {hnamefunc0}({c_var_context}, {f_var}, size({f_var}, kind=C_SIZE_T))",
     "<modelled> call c_f_pointer({F_pointer}, {F_result}{f_array_shape})",
     "{c_var_capsule}%mem = {c_var_context}%cxx",
-    "allocate(character(len={c_var_context}%elem_len):: {f_var})",
-    "call {hnamefunc0}({c_var_context}, {f_var}, {c_var_context}%elem_len)",
+    "<modelled> allocate(character(len={c_var_context}%elem_len):: {f_var})",
+    "<modelled> call {hnamefunc0}({c_var_context}, {f_var}, {c_var_context}%elem_len)",
     "<modelled> call {hnamefunc0}({c_var_context}, {f_var}, size({f_var},kind=C_SIZE_T))",
     "<modelled> allocate({f_var}({c_var_context}%size))",
     "<modelled> if (allocated({f_var})) deallocate({f_var})",
@@ -167,7 +176,7 @@ OPAQUE = [
     "{cxx_type} * {c_var} = static_cast<{cxx_type} *>(const_cast<void *>({c_var_context}->addr.base));",
     "<modelled> char **{cxx_var} = ShroudStrArrayAlloc({c_var}, {c_var_size}, {c_var_len});",
     "<modelled> ShroudStrArrayFree({cxx_var}, {c_var_size});",
-    "std::string * {cxx_var} = new std::string;",
+    "<modelled> std::string * {cxx_var} = new std::string;",
     "<modelled> {c_const}std::vector<{cxx_T}> {cxx_var}({c_var}, {c_var} + {c_var_size});",
     "<modelled> {c_const}std::vector<{cxx_T}> *{cxx_var} = new std::vector<{cxx_T}>;",
     "<modelled> std::vector<{cxx_T}> *{cxx_var} = new std::vector<{cxx_T}>({c_var}, {c_var} + {c_var_size});",
@@ -196,12 +205,12 @@ OPAQUE = [
     "<modelled> {c_var_context}->elem_len = sizeof({cxx_type});",
     "<modelled> {c_var_context}->rank = {rank};{c_array_shape}",
     "<modelled> {c_var_context}->size = {c_array_size};",
-    "{c_var_context}->addr.ccharp = {cxx_var};",
-    "{c_var_context}->elem_len = {cxx_var} == {nullptr} ? 0 : {stdlib}strlen({cxx_var});",
-    "{c_var_context}->size = 1;",
-    "{c_var_context}->rank = 0;",
-    "ShroudStrToArray({c_var_context}, {cxx_addr}{cxx_var}, {idtor});",
-    "ShroudStrToArray({c_var_context}, {cxx_var}, {idtor});",
+    "<modelled> {c_var_context}->addr.ccharp = {cxx_var};",
+    "<modelled> {c_var_context}->elem_len = {cxx_var} == {nullptr} ? 0 : {stdlib}strlen({cxx_var});",
+    "<modelled> {c_var_context}->size = 1;",
+    "<modelled> {c_var_context}->rank = 0;",
+    "<modelled> ShroudStrToArray({c_var_context}, {cxx_addr}{cxx_var}, {idtor});",
+    "<modelled> ShroudStrToArray({c_var_context}, {cxx_var}, {idtor});",
     "<modelled> {c_var_context}->cxx.addr = {cxx_var};",
     "<modelled> {c_var_context}->addr.base = {cxx_var}->empty() ? {nullptr} : &{cxx_var}->front();",
     "<modelled> {c_var_context}->elem_len = sizeof({cxx_T});",
@@ -382,6 +391,30 @@ def part_ids(rows):
     return ids, extra
 
 
+# ---- clause-level patterns: the std::vector<std::string> loops are one op each (whole clause, exact text) ----
+_VS_IN = ["std::vector<{cxx_T}> {cxx_var};", "{{+", "{c_const}char * BBB = {c_var};", "std::vector<{cxx_T}>::size_type", "+{c_temp}i = 0,",
+          "{c_temp}n = {c_var_size};", "-for(; {c_temp}i < {c_temp}n; {c_temp}i++) {{+",
+          "{cxx_var}.push_back(std::string(BBB,ShroudLenTrim(BBB, {c_var_len})));", "BBB += {c_var_len};", "-}}", "-}}"]
+_VS_OUT1 = ["{{+", "char * BBB = {c_var};", "std::vector<{cxx_T}>::size_type", "+{c_temp}i = 0,", "{c_temp}n = {c_var_size};",
+            "{c_temp}n = std::min({cxx_var}.size(),{c_temp}n);", "-for(; {c_temp}i < {c_temp}n; {c_temp}i++) {{+",
+            "ShroudStrCopy(BBB, {c_var_len}, {cxx_var}[{c_temp}i].data(), {cxx_var}[{c_temp}i].size());", "BBB += {c_var_len};", "-}}", "-}}"]
+_VS_OUT2 = ["{{+", "char * BBB = {c_var};", "std::vector<{cxx_T}>::size_type", "+{c_temp}i = 0,", "{c_temp}n = {c_var_size};",
+            "-{c_temp}n = std::min({cxx_var}.size(),{c_temp}n);", "for(; {c_temp}i < {c_temp}n; {c_temp}i++) {{+",
+            "ShroudStrCopy(BBB, {c_var_len}, {cxx_var}[{c_temp}i].data(), {cxx_var}[{c_temp}i].size());", "BBB += {c_var_len};", "-}}", "-}}"]
+CLAUSE_PATTERNS = [([norm(x) for x in _VS_IN], [(90, [6, 1, 4, 2])]),
+                   ([norm(x) for x in _VS_OUT1], [(91, [1, 4, 2, 6])]),
+                   ([norm(x) for x in _VS_OUT2], [(91, [1, 4, 2, 6])]),
+                   ([norm("{c_const}std::vector<{cxx_T}> {cxx_var};")], [(92, [6])])]
+
+
+def map_clause(lines, where):
+    n = [norm(l) for l in lines]
+    for pat, ops in CLAUSE_PATTERNS:
+        if n == pat:
+            return list(ops)
+    return [map_line(l, where) for l in lines]
+
+
 def encode_row(r, ids):
     side = r["key"].split("_")[0]
     path = [ids[p] for p in r["key"].split("_")]
@@ -405,7 +438,7 @@ def encode_row(r, ids):
     for cl, cid in CLAUSE.items():
         lines = r.get(cl) or []
         if lines:
-            clauses.append((cid, [map_line(l, "%s.%s" % (r["key"], cl)) for l in lines]))
+            clauses.append((cid, map_clause(lines, "%s.%s" % (r["key"], cl))))
     if r.get("final"):
         raise TranslatorError("clause 'final' of %s is not translated" % r["key"])
     return path, ba, be, flags, clauses
